@@ -95,7 +95,9 @@ def field_order(ctx, r):
         r.ob(visits_left, "translate_bytecode.rs:collect_locals_pat:Or:slots-from-left", TB, a["l"], "collect_locals_pat must declare the slots of an or-pattern from its left side", sample="or-pattern: slots declared by the left side")
     b = arm_of(hb, "PatKind", "Binding")
     if b is not None:
-        fallback = any(x["k"] == "Index" and "resolution_map" in q.show(x["e"]) for x in q.walk(b["body"]))
+        from lib.inline import walk_inl
+
+        fallback = any(x["k"] == "Index" and "resolution_map" in q.show(x["e"]) for x in walk_inl(b["body"]))
         r.ob(fallback, "translate_bytecode.rs:handle_pat_binding:Binding:right-side-slot", TB, b["l"], "a binding on the right side of an or-pattern has no slot of its own: handle_pat_binding must fall back to the declaration it resolves to (the left side's slot)", sample="or-pattern: right-side bindings store into the left side's slot")
     # every DeconstructStruct of a struct/variant pattern is followed by traversal in the same order helper
     for name in ("translate_pat_comparison", "handle_pat_binding", "traverse_arm_pat"):
